@@ -135,6 +135,9 @@ fn mk_scenario(id: u64, seed: u64, forced_seed: Option<u64>) -> Value {
             "lat_min_us": r.random_range(10..=500u32), "lat_extra_us": r.random_range(0..=4000u32),
             "block": fs_block,
         },
+        // the one client never finishes in a third of the scenarios: Sim::run then ends with the
+        // "ran out of simulated time" error, whose text is part of the final result that is compared
+        "endless": id % 3 == 2,
         "steps": steps, "hosts": hosts, "ctl": ctl,
     })
 }
@@ -692,11 +695,16 @@ fn run_scenario(sc: &Value, k: u64) -> Vec<Value> {
         // the one client: finishes half way, so step() turns true and run() has a verdict
         let half = u(sc, "tick_ms") * u(sc, "steps") / 2;
         let nm = names.clone();
+        let endless = sc["endless"].as_bool().unwrap_or(false);
         sim.client("driver", async move {
             for n in &nm {
                 obs("driver", "lookup", json!(turmoil::lookup(n.as_str()).to_string()));
             }
             tokio::time::sleep(Duration::from_millis(half)).await;
+            if endless {
+                obs("driver", "waiting_forever", json!(null));
+                std::future::pending::<()>().await;
+            }
             obs("driver", "finished", json!(null));
             Ok(())
         });
